@@ -289,6 +289,8 @@ def run(ctx, host=None):
     # a key is handed back only if the new loose file really was published (shared with C09.R1)
     from .c09 import publish_handlers
     publish_handlers(ctx, chk, R2)
+    from .c09 import loose_add_delegation
+    loose_add_delegation(ctx, chk, R2)
     # direct path: one key per stream (IterMachine of C09.R4, reported here as C01.R2)
     q = 'container:Container.add_streamed_objects_to_pack'
     fnq = prog.fn(q)
@@ -327,6 +329,8 @@ def run(ctx, host=None):
             chk.ok(R2, q2, f'key source, {len(combos2)} flag combination(s)', detail='the staged key is the digest returned by the writer that appended the bytes (hash type = configuration)', evals=len(combos2))
 
     # ---------------------------------------------------------------- R3
+    from .common import no_memoised_configuration
+    no_memoised_configuration(ctx, chk, R3)
     nsink = 0
 
     def classify(expr, f, depth=0):
@@ -504,6 +508,17 @@ def run(ctx, host=None):
     else:
         chk.bad(R4, info.qualname, 'return', 'compresser/decompresser are no longer returned from one table entry', where=f'{info.module.relpath}:{info.lineno}')
     reader_wrap_sites(ctx, chk, R4)
+    # the read funnel only reads: no statement of it writes to, commits or rolls back the index session (rows written with do_commit=False by the same
+    # handle must stay pending and readable until the caller commits)
+    from .funnel import FUNNEL
+    fnl = prog.fn(FUNNEL)
+    S4 = Summaries(ctx)
+    wr = [(n, e) for n, cal, effs in S4.calls(fnl) for e in effs if e[0] in ('DB_ROLLBACK', 'DB_COMMIT', 'DB_INSERT', 'DB_UPDATE', 'DB_DELETE', 'DB_VACUUM')]
+    if wr:
+        chk.bad(R4, FUNNEL, norm(wr[0][0])[:80], f'the read path issues {wr[0][1][0]} on the operation session: index rows this handle wrote but has not committed yet are discarded (or published) by a mere read',
+                where=f'{fnl.module.relpath}:{wr[0][0].lineno}')
+    else:
+        chk.ok(R4, FUNNEL, 'index access of the read path', detail='queries only (plus the session refresh of the fallback)', nontrivial=False)
     cont = prog.modules['container']
     # (c) row schema: keys of staged dicts == non-PK columns of Obj
     obj = prog.cls('database:Obj')
